@@ -21,6 +21,13 @@ func Snapshot(v interface{}) string {
 	return s.sb.String()
 }
 
+// CanonLoose is Canon with nil and empty slices/maps rendered alike.
+func CanonLoose(v interface{}) string {
+	s := &snap{ids: map[uintptr]int{}, nilEqEmpty: true}
+	s.walk(reflect.ValueOf(v), 0)
+	return s.sb.String()
+}
+
 // Canon renders v as a canonical value string (no pointer identities, slices up
 // to length only). It is used to compare query results.
 func Canon(v interface{}) string {
@@ -32,8 +39,9 @@ func Canon(v interface{}) string {
 type snap struct {
 	sb      strings.Builder
 	ids     map[uintptr]int
-	withCap bool
-	withIDs bool
+	withCap    bool
+	withIDs    bool
+	nilEqEmpty bool
 }
 
 var (
@@ -150,6 +158,14 @@ func (s *snap) walk(v reflect.Value, depth int) {
 		s.sb.WriteString("]")
 	case reflect.Slice:
 		if v.IsNil() {
+			if s.nilEqEmpty {
+				if v.Type().Elem().Kind() == reflect.Uint8 {
+					s.sb.WriteString("bytes(len=0,cap=0)\"\"")
+				} else {
+					s.sb.WriteString("[len=0:]")
+				}
+				return
+			}
 			s.sb.WriteString("nil[]")
 			return
 		}
@@ -180,6 +196,10 @@ func (s *snap) walk(v reflect.Value, depth int) {
 		s.sb.WriteString("]")
 	case reflect.Map:
 		if v.IsNil() {
+			if s.nilEqEmpty {
+				s.sb.WriteString("map{}")
+				return
+			}
 			s.sb.WriteString("nil{}")
 			return
 		}
